@@ -424,7 +424,8 @@ class SequenceBasedRoutingProblem(RoutingProblem):
                 # end for
                 row_index += 1
 
-        self.linear_constraints_matrix = sparse.coo_array((aval,(arow,acol)))
+        self.linear_constraints_matrix = sparse.coo_array((aval,(arow,acol)),
+            shape=(len(brhs), self.get_num_variables()))
         self.linear_constraints_rhs = np.array(brhs)
         self.lin_con_built = True
         duration = time.time() - start
